@@ -27,7 +27,7 @@ class World:
 
         self.rng = rng
         self._oldtmp = tempfile.tempdir
-        self.root = pathlib.Path(tempfile.mkdtemp(prefix="eko-verif-store-"))
+        self.root = pathlib.Path(tempfile.mkdtemp(prefix="verif-eko-store-"))
         self.path = self.root / "out.tar"
         self.path2 = self.root / "copy.tar"
         self._arc2_cache = (None, None)
@@ -149,7 +149,7 @@ class World:
         sha = hashlib.sha256(path.read_bytes()).hexdigest()
         if cache[0] == sha:
             return cache[1], sha
-        tmp = pathlib.Path(tempfile.mkdtemp(prefix="eko-verif-arc-"))
+        tmp = pathlib.Path(tempfile.mkdtemp(prefix="verif-eko-arc-"))
         try:
             with tarfile.open(path) as tar:
                 tar.extractall(tmp, filter="data")
